@@ -571,15 +571,27 @@ def rule_bin_cover(ctx, rid):
                     el0 = ElemEval(E, bind0, edges_terms=(edges,))
                     bounds = [el0.ev(a) for a in it[2]]
                     rng = range(*bounds)
+                    # rows are written in loop order, the last writer of a row determines its content
+                    writer = {}
+                    for ii in rng:
+                        el = ElemEval(E, dict(bind0, **{}), edges_terms=(edges,))
+                        el.bind[ls.var] = ii
+                        r = el.ev(rowt)
+                        if not isinstance(r, int) or not -nb <= r < nb:
+                            problem = 'nbins=%d: iteration %s writes row %s of %d' % (nb, ii, r, nb)
+                            break
+                        writer[r % nb] = ii
+                    if problem:
+                        break
                     for pz in classes(E, with_nan=False):
                         hits = []
-                        for ii in rng:
+                        for r, ii in sorted(writer.items()):
                             bind = dict(bind0)
                             bind[src] = pz
                             bind[ls.var] = ii
                             el = ElemEval(E, bind, edges_terms=(edges,))
                             if el.ev(_strip_column(selc)):
-                                hits.append(el.ev(rowt))
+                                hits.append(r)
                         sb = spec_bin(pz, E)
                         want = [sb] if sb is not None else []
                         if hits != want:
